@@ -721,6 +721,11 @@ func (w *world) afterDisconnect(l Letter, si int, before snap, how string) {
 			w.bad("C10/disconnect-changed-state/"+diffSnap(before, after), "%s (%s): installed entries / election id changed: %+v -> %+v", l.Name, how, before, after)
 		}
 		// the operations held for the primary go with the primary's session, never with another session's
+		if w.leavingPrim && after.held != "" {
+			// (specification 4.1.3: the pending operations of a primary are cancelled when its session ends; one that
+			// survives is installed and answered on the NEXT primary's stream as soon as its reference resolves)
+			w.bad("C10/held-operations-survive-the-primarys-disconnect", "%s (%s): the primary went away but operations are still held: %s", l.Name, how, after.held)
+		}
 		if !w.leavingPrim && before.held != after.held {
 			w.bad("C10/disconnect-of-non-primary-changed-held-operations", "%s (%s): the session that went away was not the primary, but the held operations changed: %s -> %s", l.Name, how, before.held, after.held)
 		}
